@@ -133,8 +133,8 @@ func (c04) Run(c *Case, st *Stats) []Violation {
 			for i := range e.Sig {
 				in[i] = column(snaps, e.Sig[i])
 			}
-			inst := c.ind()
-			r := runPipe(PipeOpts{SimOpts: SimOpts{Policy: pol, Record: rec, MaxSteps: 3_000_000}, Cap: cap, StepFeed: step, EarlyFeed: c.Early}, in, inst.Build())
+			r := runPipe(PipeOpts{SimOpts: SimOpts{Policy: pol, Record: rec, MaxSteps: 3_000_000}, Cap: cap, StepFeed: step, EarlyFeed: c.Early}, in,
+				func(in []<-chan F) []<-chan F { return c.ind().Build()(in) })
 			ok, _, _ := termination(&r.SimOut, r.Closed, r.ProdDone, r.Built)
 			return outcome{outs: r.Outs, avail: r.Avail, ok: ok && r.Err == nil, sim: &r.SimOut}
 		}
@@ -142,10 +142,9 @@ func (c04) Run(c *Case, st *Stats) []Violation {
 		entity = specName(c.spec())
 		idle = []int{0}
 		run = func(snaps []*asset.Snapshot, step bool, pol simrt.PolicySpec, cap int, rec bool) outcome {
-			s := c.strat()
 			r := runPipe(PipeOpts{SimOpts: SimOpts{Policy: pol, Record: rec, MaxSteps: 3_000_000}, Cap: cap, StepFeed: step, EarlyFeed: c.Early}, [][]*asset.Snapshot{snaps},
 				func(in []<-chan *asset.Snapshot) []<-chan strategy.Action {
-					return []<-chan strategy.Action{s.Compute(in[0])}
+					return []<-chan strategy.Action{c.strat().Compute(in[0])}
 				})
 			ok, _, _ := termination(&r.SimOut, r.Closed, r.ProdDone, r.Built)
 			outs := make([][]float64, len(r.Outs))
